@@ -54,7 +54,7 @@ def run(ck, tier, seed):
                 nd += 1
                 ck.violation("%s line %d shapes differently depending on what the face shaped before (file order / reverse order / fresh face)" % (fid, k),
                              {"why": "history dependence on corpus", "id": fid, "line": k})
-    ck.extra["impl"]["corpus_orders"] = {"fonts_x_texts": len(outs["forward"]), "differing": nd}
+    ck.extra.setdefault("impl", {})["corpus_orders"] = {"fonts_x_texts": len(outs["forward"]), "differing": nd}
     # binding demonstration: change one recorded result hash -> rejected
     lines = open(info["trace"]).read().splitlines()
     idx = [i for i, l in enumerate(lines) if '"op":"make_seg"' in l and '"e":"Ret"' in l and '"h":""' not in l]
